@@ -16,6 +16,12 @@ func GenC01(r *RNG) *SrvPlan {
 	p.Srv = SrvCfg{MaxConcurrentStreams: mcs, PingInterval: -1, MaxRequestBodySize: Pick(r, 0, 1<<20)}
 	p.Peer = PeerCfg{InitialWindow: Pick(r, int64(-1), 1<<20, 1<<24), MaxFrameSize: Pick(r, int64(-1), 16384, 65536), HeaderTableSize: Pick(r, int64(-1), 4096, 256, 0),
 		AutoWindow: true, ConnWindowBoost: 1 << 24, LinkCap: Pick(r, 0, 0, 4096, 100000)}
+	if r.Intn(3) == 0 {
+		// replies held by the peer's windows (the connection's above all) and released by as few grants as it takes
+		p.Peer.AutoWindow = false
+		p.Peer.DrainGrants = true
+		p.Peer.ConnWindowBoost = Pick(r, uint32(0), 0, 100000)
+	}
 	n := 1 + r.Intn(min(mcs, 6))
 	o := ReqOpts{MaxBody: 150000, Variety: r.Intn(4) != 0, Splits: r.Intn(3) != 0, Padding: r.Intn(2) == 0, Trailers: r.Intn(2) == 0, Underscore: true,
 		RespModes: []string{"buffered", "buffered", "stream-declared", "stream-unknown", "stream-zero"}, RespMaxBody: 100000}
@@ -252,6 +258,9 @@ func c01Final(w *SrvWorld, prop string) *Violation {
 		}
 		if w.Entries[i] == 0 {
 			if ps := w.Streams[l.id]; ps != nil && len(ps.RST) > 0 {
+				if ps.RST[0] == 7 && w.overCommitted(l) {
+					continue // the peer had the limit of streams open when it sent this one
+				}
 				return mk("request-refused/code="+strconv.Itoa(int(ps.RST[0])), fmt.Sprintf("RST_STREAM(%d) instead of a handler call", ps.RST[0]))
 			}
 			return mk("handler-never", "the handler was never called")
